@@ -81,6 +81,31 @@ def metamorphic(ctx):
         ctx.oracle_fail("noise beyond the hard bound 17 sd", {"max": max(map(abs, noises))}, "bound")
 
 
+def entity_set_identity(ctx):
+    """'changing the entity set yields unrelated noise', for buckets with explicit entity ids: the same contributions (amounts) held by two different
+    sets of 4..10 entities, same bucket, same salt - over many salts the released counts must not coincide systematically."""
+    import syndiffix.anonymizer as A
+    import anon_streams as AS_
+    from syndiffix.common import AnonymizationParams
+    R = random.Random(ctx.seed * 37 + 13)
+    S = ctx.stream("O-entity-identity", "count_multiple_contributions of one contribution vector (4..10 entities, one row each up to heavy hitters) under two disjoint id sets, "
+                   "same bucket seed and salt, layer_noise_sd 2, over many salts; non-trivial = every pair")
+    same = tot = 0
+    for _ in range(ctx.scale(150, 1200)):
+        k = R.randint(4, 10); amounts = [R.choice([1, 1, 2, 5]) for _ in range(k)]
+        ids1 = R.sample(range(1, 10 ** 6), k); ids2 = R.sample(range(10 ** 6, 2 * 10 ** 6), k)
+        ap = AnonymizationParams(salt=R.getrandbits(64).to_bytes(8, "little"), layer_noise_sd=2.0)
+        bs = R.getrandbits(64)
+        a = AS_.py_cntm(A, ap, bs, [(dict(zip(ids1, amounts)), 0)]); b = AS_.py_cntm(A, ap, bs, [(dict(zip(ids2, amounts)), 0)])
+        S.count((repr(amounts), ap.salt, bs), True, {"amounts": amounts, "counts": [a, b]})
+        if a not in ("none",) and not a.startswith("ERR"):
+            tot += 1; same += a == b
+    ctx.extra["support_entity_identity (not a proof)"] = {"pairs": tot, "same count": same}
+    if tot >= 50 and same > 0.5 * tot:
+        ctx.oracle_fail(f"the same contributions held by two different entity sets (same bucket, same salt) received the same released count in {same}/{tot} cases: "
+                        f"the entity-set noise layer does not depend on the entity set", {"pairs": tot, "same": same}, "unrelated-entity-set")
+
+
 def bucket_identity(ctx):
     """'changing the bucket yields unrelated noise': two single-point buckets whose values differ only from the 11th significant digit on,
     same salt, same column name, same entities — their released counts must not coincide systematically."""
@@ -174,6 +199,7 @@ def run(ctx, built):
     diagonal_buckets(ctx)
     insertion_order(ctx)
     bucket_identity(ctx)
+    entity_set_identity(ctx)
     AS.stream_hash(ctx, built)
     AS.stream_cnt(ctx, built, oracle(ctx))
     import importlib
@@ -189,5 +215,5 @@ def run(ctx, built):
 
 def search(ctx, seeds):
     sub = Ctx(ctx.pid, "quick", ctx.seed + 15485863)
-    AS.stream_cnt(sub, False, oracle(sub)); metamorphic(sub); bucket_identity(sub); diagonal_buckets(sub); insertion_order(sub)
+    AS.stream_cnt(sub, False, oracle(sub)); metamorphic(sub); bucket_identity(sub); entity_set_identity(sub); diagonal_buckets(sub); insertion_order(sub)
     ctx.oracle_failures += sub.oracle_failures
